@@ -214,6 +214,9 @@ def main(tier, seed):
                "alternatives (the statement leaves the choice open)")
     run.assume("for shipped models the uniform reference is the bottleneck the code reports under uniform scheduling "
                "(validated as the 1/N split by C01) and the micro-ops are the reported ones")
+    # whole-run traces of `inspect` validated against specs/Osaca.tla (clauses owned by this property)
+    from harness import osaca_run
+    osaca_run.whole_runs(run, "C02", tier, seed, n_quick=24)
     return run.finish()
 
 
